@@ -33,6 +33,12 @@ def inplace_ops(tkey):
         for i in (0, length - 1):
             ops.append({"k": "ip_elem", "p": path, "kind": kind, "i": i, "v": v})
         ops.append({"k": "ip_elem", "p": path, "kind": kind, "i": length // 2, "v": 0.25 if lo is None else lo})
+        if kind == "values":
+            ops.append({"k": "arr_reset", "p": path})            # public reset(), then (in pairs) in-place edits of the result
+            ops.append({"k": "arr_grow", "p": path, "kind": kind, "v": 1.0 if lo is None else hi})
+        else:
+            ops.append({"k": "arr_empty", "p": path, "kind": kind})   # an EMPTY drawn waveform (legal; zero-length block)
+            ops.append({"k": "arr_grow", "p": path, "kind": kind, "v": hi})
     ops.append({"k": "ip_links", "which": "in_links"})
     ops.append({"k": "ip_links", "which": "out_link_slots"})
     if t.controllers:
@@ -69,6 +75,17 @@ def apply_inplace(mod, op):
     if k == "ip_elem":
         getattr(getattr(mod, op["p"]), op["kind"])[op["i"]] = (
             type(mod).HarmonicType(int(op["v"])) if op["p"] == "harmonic_types" else op["v"])
+    elif k == "arr_reset":
+        getattr(mod, op["p"]).reset()
+    elif k == "arr_empty":
+        setattr(getattr(mod, op["p"]), op["kind"], [])
+    elif k == "arr_grow":
+        # in-place growth / edit of whatever list object the chunk currently holds
+        lst = getattr(getattr(mod, op["p"]), op["kind"])
+        if len(lst) >= 4:
+            lst[3] = type(mod).HarmonicType(int(op["v"]) % 14) if op["p"] == "harmonic_types" else op["v"]
+        else:
+            lst.extend([op["v"]] * 3)
     elif k == "ip_links":
         getattr(mod, op["which"]).append(7)
     elif k == "ip_cmid":
@@ -294,6 +311,30 @@ def check_history(tkey, hist):
             vs.append(C.viol("later-load-of-same-bytes-differs", key("loaded-after", "snapshot"), {}, case))
     except Exception:
         pass
+    # direction 4 (histories of two ops): the first op BEFORE a clone, the rest ON the clone -- what the load puts in
+    # place of a value the first op made special (e.g. emptied) must not be shared with the class or with others
+    if len(hist) >= 2:
+        try:
+            A4 = deviate.new_module(tkey)
+            apply_inplace(A4, hist[0])
+            o_a4 = observe_module(A4)
+            K4 = A4.clone()
+            L4 = C.load_bytes(C.save(rv.Synth(A4))).module
+            for X in (K4, L4):
+                for op in hist[1:]:
+                    apply_inplace(X, op)
+            now = observe_module(A4)
+            d = S.diff(o_a4[0], now[0])
+            if d or now[1] != o_a4[1]:
+                vs.append(C.viol("original-changed-by-clone", key("original-after-first-op", C.first_diff_key(d) or "bytes"),
+                                 {"diff": S.diff_text(d)}, case))
+            fresh = observe_module(deviate.new_module(tkey))
+            d = S.diff(pr[0], fresh[0])
+            if d or fresh[1] != pr[1]:
+                vs.append(C.viol("default-object-changed", key("constructed-after-split-history", C.first_diff_key(d) or "bytes"),
+                                 {"diff": S.diff_text(d)}, case))
+        except Exception:
+            pass
     if registry_digest() != reg0:
         vs.append(C.viol("class-registry-or-flag-changed", key("global", "registry"), {}, case))
     return vs, "ok"
